@@ -166,4 +166,12 @@ def slack(e, env):
     if e[0] == "Log1mSq":
         x = evaluate(e[1], env)
         return 5e-7 / max(1.0 - x * x + 1e-6, 1e-6)
+    if e[0] == "NormalLogPdf":      # cancellation in (x - mu) / sigma when |x|, |mu| >> sigma
+        mu, sigma, x = evaluate(e[1], env), evaluate(e[2], env), evaluate(e[3], env)
+        return normal_slack(mu, sigma, x)
     return 0.0
+
+
+def normal_slack(mu, sigma, x):
+    z = abs(x - mu) / sigma
+    return 2.5e-7 * (abs(x) + abs(mu)) / sigma * (z + 1.0)
